@@ -18,9 +18,10 @@ import NV.Driver.FS
 import NV.Driver.ClientInfo
 import NV.Driver.Ecs
 import NV.Driver.Local
+import NV.Driver.Manager
 namespace NV
 
-def steppers : List (List String → Option String) := [stepCore, stepCap, stepRaceSoak, stepListen, stepUpfault, Disc.stepDiscovery, Config.stepConfig, stepCache, stepFwd, stepProf, stepTTL, stepFS, stepClientInfo, stepEcs, LocalDrv.stepLocal]
+def steppers : List (List String → Option String) := [stepCore, stepCap, stepRaceSoak, stepListen, stepUpfault, Disc.stepDiscovery, Config.stepConfig, stepCache, stepFwd, stepProf, stepTTL, stepFS, stepClientInfo, stepEcs, LocalDrv.stepLocal, stepManager]
 
 def step (line : String) : String :=
   let toks := line.splitOn " "
